@@ -742,6 +742,12 @@ class Builtins:
         if s.kind not in ('bytes', 'bytearray'):
             I.require(False, 'zlib-needs-bytes', node, exc='TypeError')
             raise exc('TypeError')
+        if len(args) > 1 or kw:
+            # decompress(data, wbits, ...): another function of the data (raw deflate / gzip / other window), not the zlib-stream inflate
+            w = I.as_int(args[1], node) if len(args) > 1 else I.as_int(list(kw.values())[0], node)
+            r = z3.Function('zlib_decompress_wbits', S.sort, T.I, S.sort)(s.t, w)
+            I.assume(T.IsBytes(r))
+            return VSeq(r, 'bytes')
         I.require(InflateOk(s.t), 'zlib-valid-stream', node, exc='zlib.error')
         r = Inflate(s.t)
         I.assume(T.IsBytes(r))
